@@ -85,9 +85,20 @@ func c08Response(req c08Req, rec *recorder) *http.Response {
 		Body: io.NopCloser(bytes.NewReader(rec.body.Bytes())), Request: &http.Request{Method: req.verb}}
 }
 
+// c08Wrap is an ordinary application error that wraps another one.
+type c08Wrap struct {
+	msg   string
+	inner error
+}
+
+func (w *c08Wrap) Error() string { return w.msg + ": " + w.inner.Error() }
+func (w *c08Wrap) Unwrap() error { return w.inner }
+
 // Harness_C08_Outcome: request kind r (index into c08Reqs), outcome o:
 // 0 success, 1 success with overridden status, 2 Rest.li error response with
-// symbolic fields, 3 plain error, 4 panic, 5 typed-nil entity without error.
+// symbolic fields, 3 plain error, 4 panic, 5 typed-nil entity without error,
+// 6 an ordinary error that wraps a Rest.li error response (it is "any other
+// error": failure status, its message, error header).
 func Harness_C08_Outcome(r, o, n int) {
 	rq := c08Reqs[r]
 	if o == 5 && !rq.returnsEntity {
@@ -136,6 +147,9 @@ func Harness_C08_Outcome(r, o, n int) {
 			return errPlain
 		case 4:
 			panic("resource exploded")
+		case 6:
+			st := int32(404)
+			return &c08Wrap{"wrapped failure", &common.ErrorResponse{Status: &st}}
 		}
 		return nil
 	}
@@ -189,7 +203,7 @@ func Harness_C08_Outcome(r, o, n int) {
 		verif.Assert(c08SameOpt(held.Message, before.Message), "the resource's error object was modified (message)")
 		verif.Assert(c08SameOpt(held.Code, before.Code) && c08SameOpt(held.ExceptionClass, before.ExceptionClass), "the resource's error object was modified")
 		verif.Cover("error-response")
-	case 3, 4, 5:
+	case 3, 4, 5, 6:
 		verif.Assert(rec.status >= 400, "failure reported with a success status")
 		verif.Assert(errHeader, "failure not reported as an error response")
 		ce, ok := clientErr.(*restli.Error)
@@ -201,6 +215,9 @@ func Harness_C08_Outcome(r, o, n int) {
 		}
 		if o == 4 {
 			verif.Assert(strings.Contains(*ce.Message, "resource exploded"), "the panic's message was lost")
+		}
+		if o == 6 {
+			verif.Assert(strings.Contains(*ce.Message, "wrapped failure"), "the wrapping error's message was lost")
 		}
 		verif.Cover("failure")
 	}
